@@ -28,6 +28,13 @@ REPLAY = 'props.C29_R:replay'
 KINDS = ('int', 'pair', 'str', 'none-first', 'dict')
 
 
+BUDGET_FACTOR = 40      # a correct search reads O(range/step + k log range) levels; 40 x (range + 5) reads is far beyond it
+
+
+class _Runaway(Exception):
+    """The search read the history more often than any terminating strategy needs (unbounded loop / recursion)."""
+
+
 def mk_value(kind, i):
     if kind == 'int':
         return 10 + i
@@ -45,8 +52,12 @@ def mk_value(kind, i):
 def history(last, head, changes, kind):
     """-> get(level), expected change list"""
     cps = sorted(changes)
+    budget = [BUDGET_FACTOR * (head - last + 5)]
 
     def get(level):
+        budget[0] -= 1
+        if budget[0] < 0:
+            raise _Runaway(f'get called more than {BUDGET_FACTOR} x (range + 5) times')
         if not (last <= level <= head):
             raise IndexError(f'get({level}) outside [{last}, {head}]')
         return mk_value(kind, sum(1 for c in cps if c <= level))
@@ -70,6 +81,9 @@ def eval_case(case):
         except IndexError as x:
             fails.append((f'{name}::requires_of_get.level_in_range', str(x), f'{name}: get called outside [last, head]'))
         except Exception as x:  # noqa
+            if isinstance(x, _Runaway):
+                fails.append((f'{name}::termination.bounded_number_of_reads', str(x), f'{name}: does not terminate (read budget exhausted)'))
+                return False, None
             w = f'{name}: {type(x).__name__}'
             if isinstance(x, TypeError) and 'format' in str(x) or 'not enough arguments' in str(x) or 'not all arguments' in str(x):
                 w = f'{name}: TypeError while formatting a log line'
@@ -160,7 +174,7 @@ def _row(args):
                     if key not in fails:
                         fails[key] = dict(case={**case, 'clause': clause}, info=info, count=0)
                     fails[key]['count'] += 1
-                    if w.endswith('RecursionError'):
+                    if w.endswith('RecursionError') or 'does not terminate' in w:
                         runaway += 1
                 if runaway >= 3:        # unbounded recursion is very slow to hit; a few witnesses are enough
                     return n, classes, fails
